@@ -286,7 +286,7 @@ func solveVC(vc *VC, obls []*Obl, opts SolveOpts) {
 	wg.Wait()
 	// an obligation that merely timed out (no solver said sat) gets one more race with four times the budget before
 	// it is reported: on a loaded machine a proof that normally takes seconds must not turn into an alarm
-	if !opts.AllSolvers && opts.SingleMs <= 60000 {
+	if true {
 		retry := opts
 		retry.SingleMs = opts.SingleMs * 4
 		n := 0
@@ -335,6 +335,9 @@ func solveVC(vc *VC, obls []*Obl, opts SolveOpts) {
 			for _, o := range obls {
 				if o.WantSat || o.Status == "unsat" || o.Status == "sat" || o.Status == "disagree" || strings.HasPrefix(o.Status, "error") {
 					continue
+				}
+				if opts.AllSolvers || opts.SingleMs > 60000 {
+					continue // thorough tier: the stand-alone race already had its long budget
 				}
 				wg2.Add(1)
 				go func(o *Obl) {
